@@ -1,6 +1,6 @@
 (* C17/Corr.v — correspondence runner: model output vs observed output, spec on observed output *)
 From Coq Require Import String List Bool Arith.
-From Verif Require Import Base.Str Base.Run C17.Model C17.Spec C17.Classes C17.Tables.
+From Verif Require Import Base.Str Base.Run C17.Model C17.Spec C17.Classes C17.Typed C17.Tables.
 Import ListNotations.
 Open Scope string_scope.
 
@@ -17,10 +17,13 @@ Definition acs_of (a : acs_spec) : list conv :=
   | Custom srcs => flat_map (fun s => match from_dict s with Some m => [m] | None => [] end) srcs
   end.
 
+(* local values are Python objects (Model.pyvalue: a list of str / bool / int / None items, or one
+   such object); a send observes, per wire attribute, also the xsi:type of every AttributeValue
+   ("<type>" or "<type>/nil" when xsi:nil is set); exceptions are observed by type name *)
 Inductive case :=
-| CSend (a : acs_spec) (av : list (string * list string)) (f : string) (obs : option (list wattr))
+| CSend (a : acs_spec) (av : pava) (f : string) (obs : sres)
 | CRecv (a : acs_spec) (allow xml : bool) (ws : list wattr) (obs : option ava)
-| CRound (a : acs_spec) (av : list (string * list string)) (f : string) (allow xml : bool) (obs : option ava)
+| CRound (a : acs_spec) (av : pava) (f : string) (allow xml : bool) (obs : rres)
 | CLoad (s : srcmap) (obs : option (string * (dict * dict))).
 
 (* ---------------------------------------------------------------- comparisons (order-free) *)
@@ -50,17 +53,36 @@ Definition dict_eqb (a b : dict) : bool :=
   (length a =? length b)%nat && nodup_b (map fst a) && nodup_b (map fst b)
   && forallb (fun e => sopt_eqb (lookup (fst e) b) (Some (snd e))) a.
 
+Definition typed_wattr_eqb (a b : wattr * list string) : bool :=
+  wattr_eqb (fst a) (fst b) && list_eqb String.eqb (snd a) (snd b).
+
+Definition sres_eqb (a b : sres) : bool :=
+  match a, b with
+  | SOk x, SOk y => perm_eqb typed_wattr_eqb x y
+  | SNone, SNone => true
+  | SExc x, SExc y => String.eqb x y
+  | _, _ => false
+  end.
+
+Definition rres_eqb (a b : rres) : bool :=
+  match a, b with
+  | ROk x, ROk y => ava_eqb x y
+  | RNone, RNone => true
+  | RExc x, RExc y => String.eqb x y
+  | _, _ => false
+  end.
+
 Definition recv_input (xml : bool) (ws : list wattr) : list wattr := if xml then map harvest ws else ws.
 
 Definition agrees (c : case) : bool :=
   match c with
-  | CSend a av f obs => opt_eqb (perm_eqb wattr_eqb) (from_local (acs_of a) av f) obs
+  | CSend a av f obs => sres_eqb (from_local_py (acs_of a) av f) obs
   | CRecv a allow xml ws obs =>
       match obs with
       | Some r => ava_eqb (to_local (acs_of a) allow (recv_input xml ws)) r
       | None => false
       end
-  | CRound a av f allow xml obs => opt_eqb ava_eqb (roundtrip (acs_of a) av f allow xml) obs
+  | CRound a av f allow xml obs => rres_eqb (roundtrip_py (acs_of a) av f allow xml) obs
   | CLoad s obs =>
       match from_dict s, obs with
       | None, None => true
@@ -71,25 +93,27 @@ Definition agrees (c : case) : bool :=
 
 Definition holds (c : case) : bool :=
   match c with
-  | CSend a av f obs => spec_send_b (acs_of a) f av obs
+  | CSend a av f obs => spec_send_py_b (acs_of a) f av obs
   | CRecv a allow xml ws obs =>
       match obs with
       | Some r => spec_recv_b (acs_of a) allow (recv_input xml ws) r
       | None => negb (forallb (in_scope_attr_b (acs_of a)) (recv_input xml ws))
       end
-  | CRound a av f allow xml obs => spec_round_b (acs_of a) f av obs
+  | CRound a av f allow xml obs => spec_round_py_b (acs_of a) f av obs
   | CLoad _ _ => true
   end.
 
 (* finding classes: defined in C17/Classes.v (send_cls, recv_cls, round_cls: the OPEN class 1, for
    which it is proved there that class 0 implies the guards of the theorems; *_cls_reg adds
    recognition of classes 2 and 3, repaired by 16472e5d and 09ff19a1 — findings C17-F2 / C17-F3 being
-   closed, the driver reports a case that fails the spec inside them as VIOLATION with that input) *)
+   closed, the driver reports a case that fails the spec inside them as VIOLATION with that input);
+   Typed.v adds the open class 4 (the integer 0 among the values: do_ava raises OtherError, C17-F4),
+   consulted after class 1 *)
 Definition cls (c : case) : nat :=
   match c with
-  | CSend a av f _ => send_cls (acs_of a) f av
+  | CSend a av f _ => send_cls_py (acs_of a) f av
   | CRecv a allow xml ws _ => recv_cls_reg (acs_of a) (recv_input xml ws)
-  | CRound a av f _ _ _ => round_cls_reg (acs_of a) f av
+  | CRound a av f _ _ _ => round_cls_reg_py (acs_of a) f av
   | CLoad _ _ => 0
   end.
 
@@ -99,15 +123,15 @@ Definition run := run_cases agrees holds cls.
     pre-09ff19a1 (v1) models, converter the model loads, holds, cls) *)
 Definition explain (c : case) :=
   match c with
-  | CSend a av f obs => (from_local (acs_of a) av f, None, None, None, holds c, cls c)
+  | CSend a av f obs => (from_local_py (acs_of a) av f, RNone, None, None, holds c, cls c)
   | CRecv a allow xml ws obs =>
-      (None, Some (to_local (acs_of a) allow (recv_input xml ws)),
+      (SNone, ROk (to_local (acs_of a) allow (recv_input xml ws)),
        Some (to_local_v0 (acs_of a) allow (recv_input xml ws), to_local_v1 (acs_of a) allow (recv_input xml ws)),
        None, holds c, cls c)
   | CRound a av f allow xml obs =>
-      (from_local (acs_of a) av f, roundtrip (acs_of a) av f allow xml,
-       match roundtrip_v0 (acs_of a) av f allow xml, roundtrip_v1 (acs_of a) av f allow xml with
+      (from_local_py (acs_of a) av f, roundtrip_py (acs_of a) av f allow xml,
+       match roundtrip_v0 (acs_of a) (lowered av) f allow xml, roundtrip_v1 (acs_of a) (lowered av) f allow xml with
        | Some x, Some y => Some (x, y) | _, _ => None end,
        None, holds c, cls c)
-  | CLoad s obs => (None, None, None, Some (from_dict s), holds c, cls c)
+  | CLoad s obs => (SNone, RNone, None, Some (from_dict s), holds c, cls c)
   end.
